@@ -113,16 +113,31 @@ def load_known():
 LOCK_WAIT = [0.0]   # seconds spent waiting for other builds in the same project (not part of the check's own cost)
 
 
+_LOCK_DEPTH = [0]
+
+
 @contextlib.contextmanager
 def build_lock():
+    """exclusive lock on the Lean project (re-entrant within this process). run_check holds it from the translators to the
+    end of the audit, so that the files under NumqiModel/Generated that a check builds are the ones its own translator wrote
+    (a run against a patched scratch tree and a run against /repo must not see each other's generated files)."""
+    if _LOCK_DEPTH[0] > 0:
+        _LOCK_DEPTH[0] += 1
+        try:
+            yield
+        finally:
+            _LOCK_DEPTH[0] -= 1
+        return
     os.makedirs(os.path.join(LEAN, '.lake'), exist_ok=True)
     f = open(os.path.join(LEAN, '.lake', 'verif-build.lock'), 'w')
     t = time.time()
     fcntl.flock(f, fcntl.LOCK_EX)
     LOCK_WAIT[0] += time.time() - t
+    _LOCK_DEPTH[0] = 1
     try:
         yield
     finally:
+        _LOCK_DEPTH[0] = 0
         fcntl.flock(f, fcntl.LOCK_UN); f.close()
 
 
@@ -384,9 +399,10 @@ def run_check(pid, mod, tier, seed, replay=None):
                 return 1
             print(f"replay: {payload.get('key')} no longer fails ({ctx.probe_evals} probe evaluations)")
             return 0
-        if hasattr(mod, 'translate'):
-            mod.translate(ctx)
-        proof_ok = audit(ctx, mod.THEOREM_FILES, getattr(mod, 'GREP_FILES', ()))
+        with build_lock():
+            if hasattr(mod, 'translate'):
+                mod.translate(ctx)
+            proof_ok = audit(ctx, mod.THEOREM_FILES, getattr(mod, 'GREP_FILES', ()))
         if not proof_ok:
             ctx.note('proof obligations not all discharged: ' + json.dumps({k: v for k, v in ctx.proof['theorems'].items() if v is None or not set(v) <= ALLOWED_AXIOMS}))
         try:
